@@ -89,6 +89,20 @@ let run line =
                  base := cut
                end) cuts;
              out := Printf.sprintf "docs=%s final=%s" (if Buffer.length b = 0 then "-" else Buffer.contents b) !last :: !out
+           | 'D' ->
+             (* json_object_from_fd_ex(fd, depth) on the given bytes: depth -1 = default 32; the
+                accumulated bytes are parsed in one call with their explicit length *)
+             (match String.split_on_char ',' body with
+              | [dstr; h] ->
+                let dreq = int_of_string dstr in
+                let deff = if dreq = -1 then 32 else dreq in
+                (match tok_new (z_of_int deff) false false false with
+                 | None -> out := "fd -" :: !out
+                 | Some tf ->
+                   (match parse_ex strtod_bits tf (bytes_of_hex h) with
+                    | PR (_, Some v) -> out := ("fd " ^ string_of_jv v) :: !out
+                    | _ -> out := "fd -" :: !out))
+              | _ -> failwith "D op")
            | 'R' -> t := tok_reset !t; dead := false; out := "reset" :: !out
            | 'N' -> t := t0; dead := false; out := "new" :: !out
            | 'F' -> let (s, a, v) = flags_of (int_of_string body) in t := set_flags !t s a v; out := "flags" :: !out
